@@ -18,10 +18,10 @@ type Goroutine struct {
 	depth int
 	done  bool
 
-	blocked  bool
-	waitOps  []*waitOp
-	ready    func() bool
-	fired    *waitOp
+	blocked   bool
+	waitOps   []*waitOp
+	ready     func() bool
+	fired     *waitOp
 	blockedOn string
 }
 
